@@ -9,7 +9,7 @@ open TdVerif.C05
 /-- `h'` after an event that resets the caches of `L` and may restructure the nodes `M` -/
 structure StepFacts (h h' : Heap) (L M : List Nat) : Prop where
   content : ∀ p, live h p = true → flagged h p = true → p ∉ L → content h' p = content h p
-  objs : ∀ o, o < h.size → o ∉ M → (h'.node o).kids = (h.node o).kids ∧ bindings (h'.node o) = bindings (h.node o)
+  objs : ∀ o, o < h.size → o ∉ M → (h'.node o).kids = (h.node o).kids ∧ payload (h'.node o) = payload (h.node o)
   clean : ∀ p, (live h' p && flagged h' p) = false → p ∈ L ∨ (live h p && flagged h p) = false
   size : h.size ≤ h'.size
 
@@ -129,11 +129,13 @@ theorem facts_gc (h : Heap) (i : Nat) (M : List Nat) :
   · right; unfold live flagged at hp ⊢; rw [upd_node_ne _ _ _ _ hpi] at hp; exact hp
 
 theorem write_bindings (n n' : LNode) (k : String) (h : applyEff n (.write k) = some n') :
-    bindings n' = bindings n ∧ n'.kids = n.kids := by
+    payload n' = payload n ∧ n'.kids = n.kids := by
   simp only [applyEff] at h
   split at h
   · simp only [Option.some.injEq] at h; subst h
     refine ⟨?_, rfl⟩
+    unfold payload
+    simp only [Prod.mk.injEq, and_true]
     unfold bindings
     simp only [List.map_map]
     apply List.map_congr_left
@@ -145,7 +147,7 @@ theorem write_bindings (n n' : LNode) (k : String) (h : applyEff n (.write k) = 
 /-- replacing node `i` by a node with the same lock bookkeeping -/
 theorem facts_upd_node {h : Heap} (hinv : Inv h) (i : Nat) (n' : LNode)
     (ha : n'.alive = (h.node i).alive) (hfl : n'.flag = (h.node i).flag)
-    (hcase : (n'.kids = (h.node i).kids ∧ bindings n' = bindings (h.node i)) ∨ flagged h i = false)
+    (hcase : (n'.kids = (h.node i).kids ∧ payload n' = payload (h.node i)) ∨ flagged h i = false)
     (L : List Nat) : StepFacts h (h.upd i (fun _ => n')) L [i] := by
   have nself : (h.upd i (fun _ => n')).node i = n' := upd_node_self h i _
   have nne : ∀ m, m ≠ i → (h.upd i (fun _ => n')).node m = h.node m := fun m hm => upd_node_ne h i m _ hm
